@@ -84,6 +84,10 @@ fn run_random(seed: u64, case: u64, n_ops: usize, rep: &mut Report) {
     }
 }
 
+fn keq(col: &str, k: i32) -> crate::exprmodel::MExpr {
+    crate::exprmodel::MExpr::Bin(crate::exprmodel::Bin::Eq, Box::new(crate::exprmodel::MExpr::Col(col.into())), Box::new(crate::exprmodel::MExpr::Lit(V::Int(k))))
+}
+
 fn directed_steps() -> Vec<(&'static str, Vec<Step>)> {
     use crate::engine::CloseMode::*;
     let sk = vec![ColDef::new("K", CT::Str(32)).key().nullable(), ColDef::new("N", CT::Int32).nullable()];
@@ -120,6 +124,26 @@ fn directed_steps() -> Vec<(&'static str, Vec<Step>)> {
         (
             "empty-string-in-non-nullable-key",
             vec![create("NK", &vec![ColDef::new("K", CT::Str(8)).key(), ColDef::new("V", CT::Int16).nullable()]), ins("NK", vec![vec![V::s(""), V::Int(1)]]), ins("NK", vec![vec![V::s("t0x1"), V::Int(2)]]), Step::Close(Flush)],
+        ),
+        // a key column assigned twice in one update: the LAST value is the one that is stored
+        (
+            "key-assigned-twice-last-collides",
+            vec![
+                create("I", &vec![ColDef::new("K", CT::Int16).key(), ColDef::new("V", CT::Str(8)).nullable()]),
+                ins("I", vec![vec![V::Int(1), V::s("t0x1")], vec![V::Int(2), V::s("t0x2")], vec![V::Int(7), V::s("t0x7")]]),
+                d(Op::Update { table: "I".into(), sets: vec![("K".into(), V::Int(5)), ("K".into(), V::Int(2))], cond: Some(keq("K", 1)) }),
+                Step::Close(IntoInner),
+            ],
+        ),
+        (
+            "key-assigned-twice-first-collides",
+            vec![
+                create("I", &vec![ColDef::new("K", CT::Int16).key(), ColDef::new("V", CT::Str(8)).nullable()]),
+                ins("I", vec![vec![V::Int(1), V::s("t0x1")], vec![V::Int(2), V::s("t0x2")], vec![V::Int(7), V::s("t0x7")]]),
+                d(Op::Update { table: "I".into(), sets: vec![("K".into(), V::Int(2)), ("K".into(), V::Int(9))], cond: Some(keq("K", 1)) }),
+                d(Op::Update { table: "I".into(), sets: vec![("V".into(), V::s("t0x9")), ("K".into(), V::Int(3)), ("V".into(), V::s("t0x8")), ("K".into(), V::Int(7))], cond: Some(keq("K", 2)) }),
+                Step::Close(Flush),
+            ],
         ),
         (
             "null-then-empty-string-key",
